@@ -22,7 +22,7 @@ func Minimise(p *Plan, v *Violation, test func(*Plan) bool, budget int) *Plan {
 		return false
 	}
 	// 1. keep only the chain of images that leads to the violation
-	if c := keepChain(best, v.ImgPath); c != nil {
+	if c := keepChain(best, v.ImgPath, v.SelChain); c != nil {
 		try(c)
 	}
 	// levels of the chain: main plan, then Cont of image 0, ...
@@ -119,7 +119,7 @@ func levelOf(p *Plan, lvl int) *Plan {
 	return q
 }
 
-func keepChain(p *Plan, path string) *Plan {
+func keepChain(p *Plan, path string, sels []ImageSel) *Plan {
 	c := p.Clone()
 	q := c
 	if path == "" {
@@ -129,12 +129,21 @@ func keepChain(p *Plan, path string) *Plan {
 		q.Images = nil
 		return c
 	}
-	for _, part := range strings.Split(path, "/") {
+	for lvl, part := range strings.Split(path, "/") {
+		if i := strings.Index(part, "."); i >= 0 {
+			part = part[:i]
+		}
 		idx, err := strconv.Atoi(part)
 		if err != nil || idx < 0 || idx >= len(q.Images) {
 			return nil
 		}
 		im := q.Images[idx]
+		if lvl < len(sels) {
+			// make the selector explicit (resolved subset instead of seed / enumeration)
+			cont := im.Cont
+			im = sels[lvl]
+			im.Cont = cont
+		}
 		q.Images = []ImageSel{im}
 		if q.Images[0].Cont == nil {
 			q.Images[0].Cont = &Plan{}
